@@ -145,6 +145,7 @@ def step (c : Ctx) (ws0 : List String) : Ctx × String :=
     | some n, some t0 =>
       ({ d := { nmodels := n, tol := tol.toNat?, t0 := t0 }, drvAids := [] }, "ok")
     | _, _ => (c, "bad-op")
+  | ["unit", _] => (c, "ok")   -- length of the time unit on the implementation side: M-SCHED's times are in units
   | ["base", _] => (c, "ok")   -- origin of the time axis on the implementation side (before / at the epoch): M-SCHED's times are relative
   | "clock" :: rest =>
     let lags := rest.filterMap fun w =>
